@@ -14,3 +14,29 @@ func ZVC02JsonifySigAlgName(a SignatureAlgorithm) string {
 	c := &Certificate{SignatureAlgorithm: a}
 	return c.jsonifySignatureAlgorithm().Name
 }
+
+// ZVC02KeyAlgorithmNames, ZVC02TotalKeyAlgorithms, ZVC02AlgoName dump the name tables behind
+// PublicKeyAlgorithm.String and SignatureAlgorithm.String (T1 extractor of C02).
+func ZVC02KeyAlgorithmNames() []string { return append([]string{}, keyAlgorithmNames...) }
+func ZVC02TotalKeyAlgorithms() int     { return int(total_key_algorithms) }
+func ZVC02AlgoName() []string          { return append([]string{}, algoName[:]...) }
+
+// ZVC02ExtOIDByName gives the value of every extension-OID variable that the else-if chain of
+// JsonifyExtensions may name (the chain itself is read with go/ast by the extractor).
+func ZVC02ExtOIDByName() map[string][]int {
+	m := map[string][]int{}
+	for n, o := range map[string][]int{
+		"oidExtKeyUsage": oidExtKeyUsage, "oidExtBasicConstraints": oidExtBasicConstraints,
+		"oidExtSubjectAltName": oidExtSubjectAltName, "oidExtIssuerAltName": oidExtIssuerAltName,
+		"oidExtNameConstraints": oidExtNameConstraints, "oidCRLDistributionPoints": oidCRLDistributionPoints,
+		"oidExtAuthKeyId": oidExtAuthKeyId, "oidExtSubjectKeyId": oidExtSubjectKeyId,
+		"oidExtExtendedKeyUsage": oidExtExtendedKeyUsage, "oidExtCertificatePolicy": oidExtCertificatePolicy,
+		"oidExtAuthorityInfoAccess": oidExtAuthorityInfoAccess, "oidExtensionCTPrecertificatePoison": oidExtensionCTPrecertificatePoison,
+		"oidExtSignedCertificateTimestampList": oidExtSignedCertificateTimestampList,
+		"oidBRTorServiceDescriptor":            oidBRTorServiceDescriptor, "oidExtCABFOrganizationID": oidExtCABFOrganizationID,
+		"oidExtQCStatements": oidExtQCStatements,
+	} {
+		m[n] = append([]int{}, o...)
+	}
+	return m
+}
